@@ -200,20 +200,28 @@ structure ObjStm where
   members : List (Nat × List Nat)
   deriving Repr
 
+/-- `next_stream_id += 1` per completed stream -/
+def numberFrom (k : Nat) : List (List (Nat × List Nat)) → List ObjStm
+  | [] => []
+  | c :: r => { id := k, members := c } :: numberFrom (k + 1) r
+
 /-- the streams `ObjectStreamWriter::{add_object, finalize}` builds from the buffered objects -/
 def packStreams (buffered : List (Nat × List Nat)) : List ObjStm :=
   let sorted := (dedupNewest buffered).mergeSort (fun a b => a.1 ≤ b.1)
-  let cs := chunks kMaxPerStream sorted.length sorted
-  (List.range cs.length).zipWith (fun k c => { id := kFirstStreamId + k, members := c }) cs
+  numberFrom kFirstStreamId (chunks kMaxPerStream sorted.length sorted)
 
 def objStmBody (z : List Nat → List Nat) (st : ObjStm) : List Nat :=
   let p := genStreamData 0 st.members
   let data := z (p.1 ++ p.2)
   emitDict (objStmDict st.members.length p.1.length data.length) ++ kStream ++ data ++ kEndstream
 
+/-- `for (index, (obj_id, _)) in stream.objects.iter().enumerate()` -/
+def cmapFrom (stm i : Nat) : List (Nat × List Nat) → List (Nat × Nat × Nat)
+  | [] => []
+  | m :: r => (m.1, stm, i) :: cmapFrom stm (i + 1) r
+
 /-- `compressed_object_map` entries contributed by one stream -/
-def cmapOf (st : ObjStm) : List (Nat × Nat × Nat) :=
-  (List.range st.members.length).zipWith (fun i m => (m.1, st.id, i)) st.members
+def cmapOf (st : ObjStm) : List (Nat × Nat × Nat) := cmapFrom st.id 0 st.members
 
 /-- `flush_object_streams`: returns the new state and the `compressed_object_map` -/
 def flushObjectStreams (z : List Nat → List Nat) (s : WState) : WState × List (Nat × Nat × Nat) :=
@@ -257,13 +265,15 @@ def trailerBytes (size root info xrefPos : Nat) : List Nat :=
 /-- `XRefStreamWriter::bytes_needed` -/
 def bytesNeeded (v : Nat) : Nat := if v = 0 then 1 else Nat.log2 v / 8 + 1
 
+/-- `add_free_entry` / `add_in_use_entry` / `add_compressed_entry`: effect on the widths -/
+def widthStep (w : Nat × Nat × Nat) (e : Entry) : Nat × Nat × Nat :=
+  match e with
+  | .free _ _ => w
+  | .inUse off _ => (w.1, max w.2.1 (bytesNeeded off), w.2.2)
+  | .compressed stm idx => (w.1, max w.2.1 (bytesNeeded stm), max w.2.2 (bytesNeeded idx))
+
 /-- widths after all `add_*_entry` calls (initially `[1, 3, 2]`) -/
-def widths (es : List Entry) : Nat × Nat × Nat :=
-  es.foldl (fun w e =>
-    match e with
-    | .free _ _ => w
-    | .inUse off _ => (w.1, max w.2.1 (bytesNeeded off), w.2.2)
-    | .compressed stm idx => (w.1, max w.2.1 (bytesNeeded stm), max w.2.2 (bytesNeeded idx))) (1, 3, 2)
+def widths (es : List Entry) : Nat × Nat × Nat := es.foldl widthStep (1, 3, 2)
 
 /-- `write_field`: big-endian, `width` bytes, higher bytes silently dropped -/
 def writeField (v : Nat) : Nat → List Nat
